@@ -1392,8 +1392,8 @@ Proof.
   destruct (h_first h =? i).
   - destruct (e_anch (ents s3 f)) eqn:An3.
     + apply bind_ok in H. destruct H as [s4 [H4 H5]]. inversion H5; subst s'; clear H5.
-      eapply Own_fp; [|apply (quiet_fp f); apply quiet_inc; reflexivity].
-      eapply Own_fp; [exact O3|eapply free_bad_entry_fp; eauto].
+      apply (Own_fp ssz img f s4); [|apply (quiet_fp f); apply quiet_inc; reflexivity].
+      apply (Own_fp ssz img f s3); [exact O3|eapply free_bad_entry_fp; exact H4].
     + (* the inode: becomes the anchored start *)
       assert (NA : e_anch (ents s f) = false) by (rewrite E3 in An3; cbn in An3; congruence).
       specialize (St2 NA).
@@ -1406,8 +1406,8 @@ Proof.
           + apply (own_start _ _ _ O3 g Ag Eg). }
       assert (E4 : ents s4 f = e_set_anch (ents s3 f) true) by (subst s4; st_simp; apply upd_same).
       destruct (import_entry h m (ents s4 f)) as [bf|e5] eqn:Imp.
-      * eapply Own_fp; [|eapply free_bad_entry_fp; exact H].
-        destruct bf; [|exact O4]. eapply Own_fp; [exact O4|apply (quiet_fp f); apply quiet_inc; reflexivity].
+      * apply (Own_fp ssz img f (if bf then inc_badflags s4 else s4)); [|eapply free_bad_entry_fp; exact H].
+        destruct bf; [|exact O4]. apply (Own_fp ssz img f s4); [exact O4|apply (quiet_fp f); apply quiet_inc; reflexivity].
       * apply import_keys in Imp. destruct Imp as (mk0&mk1&sz&pr&hl&Em&B0&B1&Ba&Bs).
         destruct L as (Lc&Le&Ls). subst m. destruct (HK i h mk0 mk1 sz pr hl Lc) as [M0 M1].
         assert (K5 : keep (ents s4 f) e5).
@@ -1418,12 +1418,224 @@ Proof.
         assert (Lv : live ssz img i h (MOk true mk0 mk1 sz pr hl)) by (split; [exact Lc|split; assumption]).
         destruct (negb (h_esz h =? 0)).
         -- destruct (h_esz h =? rr_entry_size_max).
-           { eapply Own_fp; [exact O5|eapply free_bad_entry_fp; eauto]. }
+           { apply (Own_fp ssz img f (set_ent s4 f e5)); [exact O5|eapply free_bad_entry_fp; exact H]. }
            destruct (a_swapsz e5 =? 0).
-           ++ eapply add_tail_own; eauto.
+           ++ eapply add_tail_own; [exact O6|exact Lv|exact H].
            ++ destruct (negb (h_esz h =? a_swapsz e5)).
-              ** eapply Own_fp; [exact O5|eapply free_bad_entry_fp; eauto].
-              ** eapply add_tail_own; eauto.
-        -- eapply add_tail_own; eauto.
-  - eapply add_tail_own; eauto.
+              ** apply (Own_fp ssz img f (set_ent s4 f e5)); [exact O5|eapply free_bad_entry_fp; exact H].
+              ** eapply add_tail_own; [exact O5|exact Lv|exact H].
+        -- eapply add_tail_own; [exact O5|exact Lv|exact H].
+  - eapply add_tail_own; [exact O3|exact L|exact H].
+Qed.
+
+Lemma free_chain_at_fp : forall N fuel i s s', free_chain_at N fuel i s = Ok s' ->
+  ents s' = ents s /\ forall x, slot_ok (sls s x) (sls s' x).
+Proof.
+  induction fuel; intros i s s' H; cbn [free_chain_at] in H.
+  - destruct (i <? 0); [|discriminate]. inversion H; subst. split; [reflexivity|intros; left; apply core_le_refl].
+  - destruct (i <? 0); [inversion H; subst; split; [reflexivity|intros; left; apply core_le_refl]|].
+    destruct (negb ((0 <=? i) && (i <? N))); [discriminate|].
+    apply bind_ok in H. destruct H as [s1 [H1 H2]].
+    apply push_free_sls in H1. destruct H1 as [S1 E1]. st_simp.
+    destruct (IHfuel _ _ _ H2) as [E2 C2]. split; [congruence|].
+    intros x. eapply slot_ok_trans; [|apply C2]. rewrite S1. unfold upd. destruct (x =? i) eqn:E; [|left; apply core_le_refl].
+    assert (x = i) by lia. subst. right. cbn. auto.
+Qed.
+
+Lemma free_chain_fp : forall N f k s s', free_chain N f k s = Ok s' -> fp f s s'.
+Proof.
+  intros N f k s s' H. unfold free_chain in H. apply bind_ok in H. destruct H as [s1 [H1 H2]].
+  inversion H2; subst s'; clear H2.
+  assert (F : ents s1 = ents s /\ forall x, slot_ok (sls s x) (sls s1 x)).
+  { destruct (a_empty (ents s f)); [inversion H1; subst; split; [reflexivity|intros; left; apply core_le_refl]|].
+    eapply free_chain_at_fp; eauto. }
+  destruct F as [E C]. split; st_simp; [exact C|]. split.
+  - intros g Hg. rewrite upd_other by assumption. rewrite E. reflexivity.
+  - right. rewrite upd_same. destruct k; reflexivity.
+Qed.
+
+Lemma free_entry_fp : forall N f s s', free_entry N f s = Ok s' -> fp f s s'.
+Proof.
+  intros N f s s' H. unfold free_entry in H. destruct (a_writing (ents s f)).
+  - inversion H; subst. split; st_simp; [intros; left; apply core_le_refl|]. split.
+    + intros g Hg. apply upd_other; assumption.
+    + left. rewrite upd_same. unfold keep; cbn; auto.
+  - eapply fp_trans; [|eapply free_chain_fp; exact H]. split; st_simp; [intros; left; apply core_le_refl|]. split.
+    + intros g Hg. apply upd_other; assumption.
+    + left. rewrite upd_same. unfold keep; cbn; auto.
+Qed.
+
+Lemma start_new_entry_own : forall ssz img pos f i h m s s',
+  Own ssz img s -> meta_keys_match img -> live ssz img i h m -> ents s f = entry0 ->
+  start_new_entry (Z.of_nat (length img)) pos f i h m s = Ok s' -> Own ssz img s'.
+Proof.
+  intros ssz img pos f i h m s s' O HK L Ef H.
+  unfold start_new_entry in H. rewrite Ef in H. cbn [a_writing a_wtbf a_empty entry0 a_k0 a_k1 negb andb orb Z.eqb] in H.
+  cbv zeta in H. apply bind_ok in H. destruct H as [s1 [H1 H]]. inversion H1; subst s1; clear H1.
+  st_simp. rewrite upd_same in H. cbn [a_empty e_set_writing a_k0 a_k1 entry0 Z.eqb andb negb] in H.
+  match type of H with context [if ?c then Abort else _] => destruct c end; [discriminate|].
+  apply bind_ok in H. destruct H as [s3 [H3 H4]].
+  match type of H4 with context [if ?c then Abort else _] => destruct c end; [discriminate|]. inversion H4; subst s'; clear H4.
+  eapply add_slot_to_entry_own; [|exact HK|exact L| | |exact H3].
+  - constructor; st_simp.
+    + apply (own_slot _ _ _ O).
+    + intros g Ag Eg. destruct (Z.eq_dec g f) as [->|Hg].
+      * exfalso. rewrite upd_same in Ag. cbn [e_anch e_set_size e_set_ver e_set_state e_set_start e_set_wtbf e_set_key] in Ag.
+        repeat rewrite upd_same in Ag. cbn in Ag. discriminate.
+      * repeat rewrite upd_other in Ag, Eg |- * by assumption. apply (own_start _ _ _ O g Ag Eg).
+  - st_simp. repeat rewrite upd_same. reflexivity.
+  - st_simp. repeat rewrite upd_same. reflexivity.
+Qed.
+
+Lemma use_new_slot_own : forall ssz img pos h m s s',
+  Inv (Z.of_nat (length img)) s -> Own ssz img s -> meta_keys_match img -> live ssz img pos h m ->
+  use_new_slot (Z.of_nat (length img)) pos pos h m s = Ok s' -> Own ssz img s'.
+Proof.
+  intros ssz img pos h m s s' I O HK L H. unfold use_new_slot in H. cbv zeta in H.
+  match type of H with context [if negb ?c then Abort else _] => destruct (negb c) end; [discriminate|].
+  set (f := fileno_of (Z.of_nat (length img)) (h_k0 h) (h_k1 h)) in *.
+  destruct (e_state (ents s f)) eqn:St.
+  - eapply start_new_entry_own; eauto. pose proof (iv_ent _ s I f) as E. unfold ent_ok in E. rewrite St in E. exact E.
+  - destruct (negb (a_writing (ents s f))); [discriminate|].
+    destruct ((h_k0 h =? a_k0 (ents s f)) && (h_k1 h =? a_k1 (ents s f))) eqn:K.
+    + eapply add_slot_to_entry_own; [exact O|exact HK|exact L| | |exact H]; lia.
+    + apply bind_ok in H. destruct H as [s1 [H1 H]]. apply bind_ok in H. destruct H as [s2 [H2 H3]].
+      inversion H3; subst s'; clear H3.
+      apply (Own_fp ssz img f s2); [|apply quiet_fp; apply quiet_inc; reflexivity].
+      apply (Own_fp ssz img f s1); [|apply quiet_fp; eapply free_unused_slot_quiet; eauto].
+      apply (Own_fp ssz img f s); [exact O|eapply free_bad_entry_fp; eauto].
+  - apply bind_ok in H. destruct H as [s1 [H1 H]]. apply bind_ok in H. destruct H as [s2 [H2 H3]].
+    inversion H3; subst s'; clear H3.
+    apply (Own_fp ssz img f s2); [|apply quiet_fp; apply quiet_inc; reflexivity].
+    apply (Own_fp ssz img f s1); [|apply quiet_fp; eapply free_unused_slot_quiet; eauto].
+    apply (Own_fp ssz img f (set_ent s f (e_set_state (ents s f) LeCorrupted))); [|eapply free_entry_fp; eauto].
+    apply Own_set_keep; [exact O|unfold keep; cbn; auto].
+  - apply (Own_fp ssz img f s); [exact O|apply quiet_fp; eapply free_unused_slot_quiet; eauto].
+  - apply (Own_fp ssz img f s); [exact O|apply quiet_fp; eapply free_unused_slot_quiet; eauto].
+Qed.
+
+Lemma load_one_slot_own : forall ssz img pos d s s',
+  Inv (Z.of_nat (length img)) s -> Own ssz img s -> meta_keys_match img -> cell img pos = Some d ->
+  load_one_slot ssz (Z.of_nat (length img)) pos d s = Ok s' -> Own ssz img s'.
+Proof.
+  intros ssz img pos d s s' I O HK Cd H. unfold load_one_slot in H. cbv zeta in H.
+  assert (I1 : Inv (Z.of_nat (length img)) (inc_scan s)) by (eapply Inv_quiet; [exact I|apply quiet_inc; reflexivity]).
+  assert (O1 : Own ssz img (inc_scan s)) by (apply (Own_fp ssz img 0 s); [exact O|apply quiet_fp; apply quiet_inc; reflexivity]).
+  destruct d as [|h m].
+  - apply (Own_fp ssz img 0 (inc_scan s)); [exact O1|apply quiet_fp; eapply free_unused_slot_quiet; eauto].
+  - destruct (hdr_empty h) eqn:Em; [apply (Own_fp ssz img 0 (inc_scan s)); [exact O1|apply quiet_fp; eapply free_unused_slot_quiet; eauto]|].
+    destruct (hdr_sane ssz (Z.of_nat (length img)) h) eqn:Sa; cbn [negb] in H;
+      [|apply (Own_fp ssz img 0 (inc_scan s)); [exact O1|apply quiet_fp; eapply free_unused_slot_quiet; eauto]].
+    eapply use_new_slot_own; [exact I1|exact O1|exact HK| |exact H]. split; [exact Cd|split; assumption].
+Qed.
+
+Lemma cell_app : forall (pre : list dslot) d r, cell (pre ++ d :: r) (Z.of_nat (length pre)) = Some d.
+Proof.
+  intros. unfold cell. destruct (Z.of_nat (length pre) <? 0) eqn:E; [lia|].
+  rewrite Nat2Z.id. rewrite nth_error_app2 by lia. rewrite Nat.sub_diag. reflexivity.
+Qed.
+
+Lemma load_all_both : forall ssz img rest pre s s',
+  img = pre ++ rest -> meta_keys_match img ->
+  Inv (Z.of_nat (length img)) s -> Own ssz img s ->
+  load_all ssz (Z.of_nat (length img)) (Z.of_nat (length pre)) rest s = Ok s' ->
+  Inv (Z.of_nat (length img)) s' /\ Own ssz img s'.
+Proof.
+  intros ssz img. induction rest as [|d r IH]; intros pre s s' E HK I O H; cbn [load_all] in H.
+  - inversion H; subst; auto.
+  - apply bind_ok in H. destruct H as [s1 [H1 H2]].
+    assert (I1 : Inv (Z.of_nat (length img)) s1) by (eapply load_one_slot_inv; eauto).
+    assert (O1 : Own ssz img s1).
+    { eapply load_one_slot_own; [exact I|exact O|exact HK| |exact H1]. rewrite E. apply cell_app. }
+    apply (IH (pre ++ [d]) s1 s'); auto.
+    + rewrite <- app_assoc. exact E.
+    + rewrite app_length. cbn [length]. replace (Z.of_nat (length pre + 1)) with (Z.of_nat (length pre) + 1) by lia. exact H2.
+Qed.
+
+Lemma for_range_pres : forall (P : st -> Prop) step, (forall k s s', P s -> step k s = Ok s' -> P s') ->
+  forall n k s s', P s -> for_range n k step s = Ok s' -> P s'.
+Proof.
+  intros P step Hs. induction n; intros k s s' I H; cbn [for_range] in H.
+  - inversion H; subst; exact I.
+  - apply bind_ok in H. destruct H as [s1 [H1 H2]]. eapply IHn; [|exact H2]. eapply Hs; eauto.
+Qed.
+
+Lemma Own_st0 : forall ssz img, Own ssz img st0.
+Proof. intros. constructor; cbn; intros; discriminate. Qed.
+
+Lemma rebuild_own : forall ssz dbl img s, meta_keys_match img -> rebuild ssz dbl img = Ok s -> Own ssz img s.
+Proof.
+  intros ssz dbl img s HK H. unfold rebuild in H. cbv zeta in H.
+  apply bind_ok in H. destruct H as [s1 [H1 H]]. apply bind_ok in H. destruct H as [s2 [H2 H3]].
+  destruct (load_all_both ssz img img [] st0 s1 eq_refl HK (Inv_st0 _) (Own_st0 _ _) H1) as [I1 O1].
+  assert (O2 : Own ssz img s2).
+  { eapply (for_range_pres (Own ssz img)); [|exact O1|exact H2]. intros k a b Oa Hk.
+    unfold validate_one_entry in Hk. cbv zeta in Hk.
+    assert (Oi : Own ssz img (inc_valid a)) by (apply (Own_fp ssz img k a); [exact Oa|apply quiet_fp; apply quiet_inc; reflexivity]).
+    destruct (e_state (ents (inc_valid a) k)); try (inversion Hk; subst; exact Oi).
+    apply (Own_fp ssz img k (inc_valid a)); [exact Oi|eapply finalize_or_free_fp; eauto]. }
+  destruct dbl; [|inversion H3; subst; exact O2].
+  eapply (for_range_pres (Own ssz img)); [|exact O2|exact H3]. intros k a b Oa Hk.
+  unfold validate_one_slot in Hk. cbv zeta in Hk. destruct (negb (ls_ok _ _ k)); [discriminate|].
+  match type of Hk with context [if ?c then Ok _ else _] => destruct c end; [|discriminate]. inversion Hk; subst.
+  apply (Own_fp ssz img k a); [exact Oa|apply quiet_fp; apply quiet_inc; reflexivity].
+Qed.
+
+(* no used cell links to a used cell of another key *)
+Definition no_cross_key_links (ssz : Z) (img : list dslot) : Prop :=
+  forall x y hx mx hy my, live ssz img x hx mx -> live ssz img y hy my -> h_next hx = y ->
+    h_k0 hy = h_k0 hx /\ h_k1 hy = h_k1 hx.
+
+Lemma live_det : forall ssz img x h m h' m', live ssz img x h m -> live ssz img x h' m' -> h = h'.
+Proof. intros ssz img x h m h' m' (A&_) (B&_). congruence. Qed.
+
+Lemma chain_one_key : forall ssz img s k0 k1, Own ssz img s -> no_cross_key_links ssz img ->
+  forall l i, chain_of s i l ->
+  (forall x, In x l -> s_mapped (sls s x) = true /\ 0 < s_size (sls s x)) ->
+  (forall h m, live ssz img i h m -> h_k0 h = k0 /\ h_k1 h = k1) ->
+  forall x, In x l -> exists h m, live ssz img x h m /\ h_k0 h = k0 /\ h_k1 h = k1.
+Proof.
+  intros ssz img s k0 k1 O NC. induction l as [|y r IH]; intros i C M K x Hx; [contradiction|].
+  cbn in C. destruct C as (E&P&C). subst y.
+  destruct (M i (or_introl eq_refl)) as [Mi Si].
+  destruct (own_slot _ _ _ O i Mi) as (h&m&L&Nx). specialize (Nx Si). destruct (K h m L) as [K0 K1].
+  destruct Hx as [<-|Hx]; [exists h, m; auto|].
+  apply (IH (s_next (sls s i))); auto.
+  - intros z Hz. apply M. right; exact Hz.
+  - intros h2 m2 L2. rewrite Nx in L2. destruct (NC i (h_next h) h m h2 m2 L L2 eq_refl) as [A B]. split; congruence.
+Qed.
+
+(* PARTIAL (one key per chain): in an image without links across keys and whose swap metadata keys equal the
+   cell keys, every slot of a readable entry's chain holds a cell stamped with the entry's key *)
+Theorem readable_chain_one_key_partial : forall ssz dbl img s f l,
+  rebuild ssz dbl img = Ok s -> no_cross_key_links ssz img -> meta_keys_match img ->
+  readable (ents s f) = true -> chain_of s (a_start (ents s f)) l ->
+  forall x, In x l -> exists h m, live ssz img x h m /\ h_k0 h = a_k0 (ents s f) /\ h_k1 h = a_k1 (ents s f).
+Proof.
+  intros ssz dbl img s f l H NC HK R C.
+  pose proof (rebuild_own ssz dbl img s HK H) as O.
+  pose proof (readable_anchored ssz dbl img s f H R) as An.
+  destruct (readable_chain_acyclic_loaded ssz dbl img s f H R) as (l0&C0&_&M0).
+  assert (l = l0) by (eapply chain_of_det; eauto). subst l0.
+  assert (Em : a_empty (ents s f) = false).
+  { unfold readable in R. destruct (a_empty (ents s f)); [rewrite andb_false_r in R; discriminate|reflexivity]. }
+  destruct (own_start _ _ _ O f An Em) as (h0&m0&L0&A0&A1).
+  eapply chain_one_key; [exact O|exact NC|exact C| |].
+  - intros x Hx. destruct (M0 x Hx) as (_&Mx&_&Sx). auto.
+  - intros h m L. rewrite (live_det _ _ _ _ _ _ _ L L0). auto.
+Qed.
+
+(* PARTIAL (one version per chain): if moreover cells of one key carry one version *)
+Theorem readable_chain_one_version_partial : forall ssz dbl img s f l,
+  rebuild ssz dbl img = Ok s -> no_cross_key_links ssz img -> meta_keys_match img ->
+  (forall x y hx mx hy my, live ssz img x hx mx -> live ssz img y hy my ->
+      h_k0 hx = h_k0 hy -> h_k1 hx = h_k1 hy -> h_ver hx = h_ver hy) ->
+  readable (ents s f) = true -> chain_of s (a_start (ents s f)) l ->
+  forall x y hx mx hy my, In x l -> In y l -> live ssz img x hx mx -> live ssz img y hy my -> h_ver hx = h_ver hy.
+Proof.
+  intros ssz dbl img s f l H NC HK SV R C x y hx mx hy my Hx Hy Lx Ly.
+  destruct (readable_chain_one_key_partial ssz dbl img s f l H NC HK R C x Hx) as (h1&m1&L1&A1&B1).
+  destruct (readable_chain_one_key_partial ssz dbl img s f l H NC HK R C y Hy) as (h2&m2&L2&A2&B2).
+  rewrite (live_det _ _ _ _ _ _ _ Lx L1). rewrite (live_det _ _ _ _ _ _ _ Ly L2).
+  eapply SV; eauto; congruence.
 Qed.
